@@ -709,6 +709,19 @@ func checkC09(r *mon.Run) {
 			for k := 0; k < nl; k++ {
 				l := refesl.List{Type: refesl.SHA256Type, SigSize: 48}
 				ne := rng.Intn(4)
+				if rng.Intn(3) == 0 {
+					// an X.509 list: with one certificate, or without entries and with the signature
+					// size of whatever certificate it held once
+					certA := c09Univ().datas[5]
+					l = refesl.List{Type: refesl.X509Type, SigSize: uint32(16 + []int{len(certA), 100, 16, 2000}[rng.Intn(4)])}
+					if rng.Intn(2) == 0 {
+						var o [16]byte
+						copy(o[:], fromLib(c09Univ().owners[rng.Intn(3)]).Wire())
+						l.Entries = append(l.Entries, refesl.Entry{Owner: o, Data: certA})
+					}
+					ls = append(ls, l)
+					continue
+				}
 				for e := 0; e < ne; e++ {
 					var o [16]byte
 					copy(o[:], fromLib(c09Univ().owners[rng.Intn(3)]).Wire())
